@@ -237,8 +237,10 @@ impl InitSuite {
             "ideliver-from" => {
                 // ideliver-from <from> <k> <to> [mut…]: the k-th most recent datagram emitted by <from> (no-op when there is none)
                 let from = t.get(1)?.to_string();
-                let k: usize = t.get(2)?.parse().ok()?;
-                let cand: Vec<usize> = self.senders.iter().enumerate().filter(|(_, s)| **s == from).map(|(i, _)| i).collect();
+                // <k> = last: the most recent NON-EMPTY datagram of <from> (an attempt that gives way or ignores a datagram emits an empty one)
+                let last = *t.get(2)? == "last";
+                let k: usize = if last { 0 } else { t.get(2)?.parse().ok()? };
+                let cand: Vec<usize> = self.senders.iter().enumerate().filter(|(i, s)| **s == from && !(last && self.msgs[*i].is_empty())).map(|(i, _)| i).collect();
                 if k >= cand.len() {
                     return Some("none-in-flight".to_string());
                 }
